@@ -1,9 +1,151 @@
+import SwayVerif.Model.Storage
 import SwayVerif.Driver.Util
-/-! Driver for C12 (stub — replace `answer`; keep `run`). -/
+/-!
+Driver for C12. Cases (see harness/src/bin/sv_c12.rs):
+`field ns= name= key= pre= dig= val= subs= ;; slots= st= abi= mem= subs=` and
+`decl <key:spec> .. ;; total=<n> <k,k> <k> ..`.
+-/
 namespace SwayVerif.Driver.C12
-open SwayVerif.Driver
+open SwayVerif.Driver SwayVerif.Storage
 
-def answer (_line : String) : String := "unimplemented agree=0 prop=0"
+def kv (ts : List String) (k : String) : Option String :=
+  ts.findSome? fun t => if t.startsWith (k ++ "=") then some (t.drop (k.length + 1)).toString else none
+
+def bytesOf (s : String) : Option (List Nat) := (hexBytes? s).map (·.map UInt8.toNat)
+
+/-- value spec: comma separated prefix notation -/
+partial def parseVal : List String → Option (Val × List String)
+  | [] => none
+  | t :: rest =>
+    match t.splitOn "." with
+    | ["u8", n] => n.toNat?.map fun n => (Val.u8 n, rest)
+    | ["bo", n] => n.toNat?.map fun n => (Val.bool (n != 0), rest)
+    | ["w", b, n] => do let b ← b.toNat?; let n ← n.toNat?; pure (Val.word b n, rest)
+    | ["b32", u, h] => do let n ← parseHex? h; pure (Val.b32 (u == "1") n, rest)
+    | ["st", h] => (bytesOf h).map fun b => (Val.str b, rest)
+    | ["un"] => some (Val.unit, rest)
+    | ["T", n] => do
+        let n ← n.toNat?
+        let rec fields : Nat → List String → Option (List Val × List String)
+          | 0, ts => some ([], ts)
+          | k + 1, ts => do
+            let (v, ts) ← parseVal ts
+            let (vs, ts) ← fields k ts
+            pure (v :: vs, ts)
+        let (vs, ts) ← fields n rest
+        pure (vs.foldr Val.cons Val.nil, ts)
+    | ["E", tag, uw] => do
+        let tag ← tag.toNat?; let uw ← uw.toNat?
+        let (p, ts) ← parseVal rest
+        pure (Val.enum tag uw p, ts)
+    | _ => none
+
+def parseSpec (s : String) : Option Val :=
+  match parseVal (s.splitOn ",") with
+  | some (v, []) => some v
+  | _ => none
+
+def parseSlots (s : String) : Option (List (Nat × List Nat)) :=
+  if s = "-" then some [] else
+  (s.splitOn ",").foldr (fun t acc => match acc, t.splitOn ":" with
+    | some l, [k, v] => match parseHex? k, bytesOf v with
+      | some k, some v => some ((k, v) :: l)
+      | _, _ => none
+    | _, _ => none) (some [])
+
+def listSlot (v : List Nat) : Slot := fun b => if b < 32 then v.getD b 0 else 0
+
+def kindOf : Val → String
+  | .u8 _ => "u8" | .bool _ => "bool" | .word b _ => s!"u{b}" | .b32 u _ => if u then "u256" else "b256"
+  | .str _ => "str" | .unit => "unit" | .nil => "empty" | .cons _ _ => "struct" | .enum _ _ _ => "enum"
+
+partial def hasUnitVariant : Val → Bool
+  | .enum _ _ .unit => true
+  | .enum _ _ p => hasUnitVariant p
+  | .cons h t => hasUnitVariant h || hasUnitVariant t
+  | _ => false
+
+def parseSubsCase (s : String) : Option (List (Nat × Nat × Val)) :=
+  if s = "-" then some [] else
+  (s.splitOn ";").foldr (fun t acc => match acc, t.splitOn ":" with
+    | some l, [i, off, sp] => match i.toNat?, off.toNat?, parseSpec sp with
+      | some i, some off, some v => some ((i, off, v) :: l)
+      | _, _, _ => none
+    | _, _ => none) (some [])
+
+def parseSubsImpl (s : String) : Option (List (Nat × Option (List Nat))) :=
+  if s = "-" then some [] else
+  (s.splitOn ";").foldr (fun t acc => match acc, t.splitOn ":" with
+    | some l, [i, h] => match i.toNat? with
+      | some i => some ((i, if h = "none" then none else bytesOf h) :: l)
+      | none => none
+    | _, _ => none) (some [])
+
+def answerField (c i : List String) : Option String := do
+  let ns := (← kv c "ns")
+  let ns : List (List Char) := if ns = "-" then [] else (ns.splitOn "/").map String.toList
+  let name := (← kv c "name").toList
+  let keyS ← kv c "key"
+  let pre ← bytesOf (← kv c "pre")
+  let dig ← parseHex? (← kv c "dig")
+  let v ← parseSpec (← kv c "val")
+  let subsC ← parseSubsCase (← kv c "subs")
+  let emitted ← parseSlots (← kv i "slots")
+  let st ← kv i "st"
+  let abiS ← kv i "abi"
+  let memS ← kv i "mem"
+  let subsI ← parseSubsImpl (← kv i "subs")
+  let auto := keyS = "auto"
+  let key ← if auto then some dig else parseHex? keyS
+  -- model
+  let preOk := !auto || keyPreimage ns name [] == pre
+  let model := serializeToSlots v key
+  let modelL := model.map (·.map fun p => (p.1, slotList p.2))
+  let slotsOk := modelL == some emitted
+  let store := deploy (emitted.map fun p => (p.1, listSlot p.2))
+  let ovf := key + v.nslots > two256
+  let mread := readField store key v
+  let obsMem := if memS = "-" then none else bytesOf memS
+  let readOk := match obsMem with
+    | some m => mread == some m && m == v.mem
+    | none => if memS = "-" then mread == some v.mem else false
+  let subsModelOk := subsC.all fun (idx, off, sv) =>
+    match v.field idx with
+    | some (boff, fv) => boff == 8 * off && fv == sv && readMember store key boff fv == some sv.mem
+    | none => false
+  let agree := v.wf && preOk && slotsOk && readOk && subsModelOk && !ovf
+  -- property on the implementation's result
+  let obsAbi := if abiS = "-" then none else bytesOf abiS
+  let subsP := subsC.map fun (idx, _, sv) => (sv, (subsI.find? (·.1 == idx)).bind (·.2))
+  let prop := fieldProp v key (emitted.map (·.1)) (st = "return") (obsAbi.getD []) subsP && obsAbi.isSome
+  pure s!"slots={(modelL.map List.length).getD 0} agree={b01 agree} prop={b01 prop} kind={kindOf v} nsl={v.nslots} keykind={if auto then "auto" else "explicit"} unitvar={b01 (hasUnitVariant v)} nsdepth={ns.length} nsubs={subsC.length} pre={b01 preOk} slotsok={b01 slotsOk} readok={b01 readOk} subsok={b01 subsModelOk}"
+
+def answerDecl (c i : List String) : Option String := do
+  let fields ← c.drop 1 |>.foldr (fun t acc => match acc, t.splitOn ":" with
+    | some l, [k, sp] => match parseHex? k, parseSpec sp with
+      | some k, some v => some ((k, v) :: l)
+      | _, _ => none
+    | _, _ => none) (some [])
+  let total ← (← kv i "total").toNat?
+  let groups ← (i.filter (fun t => !t.startsWith "total=")).foldr (fun t acc => match acc with
+    | some l => if t = "-" then some ([] :: l) else
+      match (t.splitOn ",").foldr (fun h a => match a, parseHex? h with
+        | some a, some k => some (k :: a) | _, _ => none) (some []) with
+      | some g => some (g :: l)
+      | none => none
+    | none => none) (some [])
+  let modelGroups := fields.map fun (k, v) => (List.range v.nslots).map (k + ·)
+  let agree := modelGroups == groups
+  let prop := declProp groups total
+  pure s!"fields={fields.length} agree={b01 agree} prop={b01 prop} kind=decl total={total}"
+
+def answer (line : String) : String :=
+  let (c, i) := splitCase line
+  let r := match c.head? with
+    | some "field" => answerField c i
+    | some "decl" => answerDecl c i
+    | _ => none
+  r.getD "bad-case agree=0 prop=0"
 
 def run : IO Unit := do
   lineLoop (← IO.getStdin) (← IO.getStdout) answer
